@@ -375,6 +375,40 @@ def workload(ctx, repo):
                         ctx.case = case
                         ctx.ev("cases.zero-length")
                         run_case(ctx, repo, case)
+    # whole-day shifts that land exactly on (or a day beside) the first day
+    # of the year or of the month - a day field that is 0 on the way - from
+    # points at any time of day, 24:00 spellings included
+    i = 0
+    for mode in R.MODES:
+        for y in (2001, 2004):
+            y0 = R.days_before_year(mode, y)
+            L = R.year_len(mode, y)
+            for doy in (1, 2, 7, 10, 14, 31, 32, 59, 60, 61, L - 1, L):
+                rd = y0 + doy - 1
+                dom = R.rd_to_ymd(mode, rd)[2]
+                durs = [{"days": -n} for n in sorted(
+                    {doy - 1, doy, doy + 1, dom - 1, dom, dom + 1,
+                     doy + L, L - doy, L - doy + 1})]
+                durs += [{"days": L - doy + 1}, {"days": L - doy}]
+                if doy % 7 == 0:
+                    durs.append({"weeks": -(doy // 7)})
+                for rep in gen.REPS:
+                    for dkw in durs:
+                        for tkw in ZERO_TIMES:
+                            i += 1
+                            if not ctx.mine(i):
+                                continue
+                            kw = gen.date_kwargs(mode, rep, rd)
+                            kw.update(tkw)
+                            kw.update(gen.zone_kwargs(
+                                SWEEP_OFFSETS[(i // 7) % len(SWEEP_OFFSETS)]))
+                            case = {"op": ("add", "radd", "sub")[i % 3],
+                                    "mode": mode, "p": kw, "d": dkw}
+                            if case["op"] == "sub":
+                                case["d"] = {k: -v for k, v in dkw.items()}
+                            ctx.case = case
+                            ctx.ev("cases.land-on-first-day")
+                            run_case(ctx, repo, case)
     # unit counts given as True (an int that is not the object 1)
     if ctx.worker == 0:
         for dkw in ({"hours": True}, {"days": True}, {"seconds": True},
